@@ -170,8 +170,11 @@ func (c *Ctx) AddPrelude(text string) error {
 				return err
 			}
 			d.Deps = atomsOf(e.List[4])
-			if _, dup := c.Prelude[name]; dup {
-				return fmt.Errorf("prelude: duplicate %s", name)
+			if old, dup := c.Prelude[name]; dup {
+				if old.Text == d.Text {
+					continue // the same definition given by another contract file
+				}
+				return fmt.Errorf("prelude: duplicate %s with a different definition", name)
 			}
 			c.Prelude[name] = d
 			c.PreludeOrder = append(c.PreludeOrder, name)
